@@ -375,6 +375,25 @@ pub fn reflect(p: &Prob) -> Prob {
     }
 }
 
+/// time shift: z'(s) = f(s - dt, z)  (z(s) = y(s - dt))
+pub fn shift(p: &Prob, dt: f64) -> Prob {
+    if dt == 0.0 {
+        return p.clone();
+    }
+    let f = p.f.clone();
+    let jac = p.jac.clone();
+    let flow = p.flow.clone();
+    Prob {
+        name: format!("shift({},{})", p.name, dt),
+        n: p.n,
+        f: Arc::new(move |s, z, d| f(s - dt, z, d)),
+        jac: jac.map(|j| -> J { Arc::new(move |s, z| j(s - dt, z)) }),
+        flow: flow.map(|fl| -> Flow { Arc::new(move |s0, z0, s1| fl(s0 - dt, z0, s1 - dt)) }),
+        y0: p.y0.clone(),
+        linear_homogeneous: p.linear_homogeneous,
+    }
+}
+
 /// time scaling: z'(s) = c f(c s, z)  (z(s) = y(c s))
 pub fn timescale(p: &Prob, c: f64) -> Prob {
     let f = p.f.clone();
